@@ -231,13 +231,65 @@ Qed.
    itself, seen with its children already revived), and the identity reviver
    rebuilds the value *)
 Theorem rwalk_node_last : forall id f key v,
-  exists log v', fst (fst (rwalk id (S f) key v)) = log ++ [(key, v')] /\
-                 snd (fst (rwalk id (S f) key v)) = rev_fun id key v'.
+  exists log v', fst (rwalk id (S f) key v) = log ++ [(key, v')] /\
+                 snd (rwalk id (S f) key v) = rev_fun id key v'.
 Proof.
   intros id f key v. cbn [rwalk].
-  destruct (match v with OArr _ => _ | OObj _ => _ | _ => _ end) as [[log v'] bad].
+  destruct (match v with OArr _ => _ | OObj _ => _ | _ => _ end) as [log v'].
   exists log, v'. split; reflexivity.
 Qed.
+
+(* deletions on undefined: under the reviver that returns undefined for every
+   member (family id 7), no member with a non-empty key survives, whatever the
+   members are and however many there are *)
+Lemma rwalk7_member f k x : k <> [] -> snd (rwalk 7 (S f) k x) = OUndef.
+Proof.
+  intros Hk. destruct (rwalk_node_last 7 f k x) as (log & v' & _ & ->).
+  unfold rev_fun. cbn. destruct k; [congruence | reflexivity].
+Qed.
+
+Theorem reviver_deletes_all : forall m f,
+  (forall kv, In kv m -> fst kv <> []) ->
+  snd (rwalk 7 (S (S f)) [] (OObj m)) = OObj [].
+Proof.
+  intros m f Hm.
+  set (step := fun (acc : list (list Z * ov) * list (list Z * ov)) (kv : list Z * ov) =>
+                 let '(lg, out) := acc in
+                 let '(lg1, x') := rwalk 7 (S f) (fst kv) (snd kv) in
+                 if is_undef x' then (lg ++ lg1, out) else (lg ++ lg1, out ++ [(fst kv, x')])).
+  assert (H : forall lg, snd (fold_left step m (lg, [])) = []).
+  { induction m as [|kv m IH]; intros lg; [reflexivity|]. cbn [fold_left].
+    assert (E : step (lg, []) kv = (lg ++ fst (rwalk 7 (S f) (fst kv) (snd kv)), [])).
+    { unfold step. pose proof (rwalk7_member f (fst kv) (snd kv) (Hm kv (or_introl eq_refl))) as Hu.
+      destruct (rwalk 7 (S f) (fst kv) (snd kv)) as [lg1 x']. cbn [snd fst] in *. subst x'. reflexivity. }
+    rewrite E. apply IH. intros kv' Hin. apply Hm. now right. }
+  change (rwalk 7 (S (S f)) [] (OObj m))
+    with (let '(log, v') := (let '(lg, out) := fold_left step m ([], []) in (lg, OObj out)) in
+          (log ++ [([], v')], rev_fun 7 [] v')).
+  specialize (H []). destruct (fold_left step m ([], [])) as [lg out]. cbn [snd] in H. subst out.
+  reflexivity.
+Qed.
+
+(* 15.12.3 step 4.b: the property list K has no name twice *)
+Lemma plist_es5_distinct l : forall seen,
+  distinct (plist_es5 l seen) /\
+  (forall k, mem_key k (plist_es5 l seen) = true -> mem_key k seen = false).
+Proof.
+  induction l as [|p l IH]; intros seen; cbn [plist_es5].
+  - split; [exact I | intros k H; discriminate].
+  - destruct (pitem_name p) as [k|]; [|apply IH].
+    destruct (mem_key k seen) eqn:E; [apply IH|].
+    destruct (IH (k :: seen)) as [Hd Hm]. split.
+    + cbn [distinct]. split; [|exact Hd].
+      destruct (mem_key k (plist_es5 l (k :: seen))) eqn:E2; [|reflexivity].
+      apply Hm in E2. cbn [mem_key] in E2. now rewrite key_eqb_refl in E2.
+    + intros k' H. cbn [mem_key] in H. apply orb_true_iff in H as [H|H].
+      * apply key_eqb_eq in H. now subst.
+      * apply Hm in H. cbn [mem_key] in H. now apply orb_false_iff in H.
+Qed.
+
+Theorem property_list_distinct : forall fl l, distinct (plist_of fl l).
+Proof. intros fl l. unfold plist_of. apply plist_es5_distinct. Qed.
 
 (* ------------------------------------------------------------------ *)
 (* the value of a text made of UTF-16 code units is well formed, so it can be
